@@ -10,6 +10,9 @@ def gen_mixed(rng, size):
     ents = []
     na = rng.choice([2, 3, 3])
     ents.append(dict(kind='source', cycle=rng.choice([4, 8, 8]), budget=rng.choice([None, 4, 6]), gen_value=8 * rng.choice([0, 1]), gen_quality=8, gen_batch=na))   # 1
+    if rng.random() < 0.5:
+        # one stream of single parts, batches of varying sizes and (sometimes) empty batches
+        ents[0]['gen_pattern'] = [rng.choice([0, 1, 2, 3, 4, 5, -1]) for _ in range(rng.choice([2, 3, 4, 6]))]
     ents.append(dict(kind='source', cycle=rng.choice([4, 8, 12]), budget=rng.choice([None, 5, 8]), gen_value=8, gen_quality=4, gen_batch=0))                       # 2
     ents.append(dict(kind='buffer', up=[1, 2], min_delay=rng.choice([0, 0, 4, 8]), capacity=rng.choice([None, None, 6, 8, 12])))                                   # 3
     outs = []
@@ -82,6 +85,8 @@ def gen(rng, size='small', focus=None):
             budget = rng.choice([2, 4, 6])
         e = dict(kind='source', cycle=c, budget=budget, gen_value=8 * rng.choice([0, 1, 5]), gen_quality=rng.choice([0, 4, 8, 12]),
                  gen_batch=(rng.choice([0, 2, 3]) if use_batches else 0))
+        if use_batches and rng.random() < 0.35:
+            e['gen_pattern'] = [rng.choice([0, 0, 1, 2, 3, 4, -1]) for _ in range(rng.choice([2, 3, 4, 5]))]
         i = add(e)
         prev.append(i)
         sources.append(i)
